@@ -226,6 +226,16 @@ func runSolver(name, file string, timeout int) SolverResult {
 func Discharge(obls []*Obligation, dir string, timeout int, thorough bool, jobs int, knownFail func(*Obligation) bool) []*OblResult {
 	os.MkdirAll(dir, 0o755)
 	results := make([]*OblResult, len(obls))
+	// scripts are rendered sequentially (the encoder's caches are not goroutine-safe)
+	scripts := make([][2]string, len(obls))
+	for i, o := range obls {
+		scripts[i][0] = o.Script(false)
+		if o.Raw != "" {
+			scripts[i][1] = scripts[i][0]
+		} else {
+			scripts[i][1] = o.Script(true)
+		}
+	}
 	var wg sync.WaitGroup
 	sem := make(chan struct{}, jobs)
 	for i, o := range obls {
@@ -236,14 +246,14 @@ func Discharge(obls []*Obligation, dir string, timeout int, thorough bool, jobs 
 			defer func() { <-sem }()
 			base := filepath.Join(dir, fmt.Sprintf("%04d", i))
 			f := base + ".smt2"
-			os.WriteFile(f, []byte(o.Script(false)), 0o644)
+			os.WriteFile(f, []byte(scripts[i][0]), 0o644)
 			r := &OblResult{O: o, File: f, Status: "failed"}
 			start := time.Now()
 			try := func(s string) bool {
 				file := f
 				if s == "cvc5" {
 					file = base + ".cvc5.smt2"
-					os.WriteFile(file, []byte(o.Script(true)), 0o644)
+					os.WriteFile(file, []byte(scripts[i][1]), 0o644)
 				}
 				to := timeout
 				if (s == "z3-new" || s == "cvc5") && !thorough && timeout >= 4 {
